@@ -520,13 +520,15 @@ def binop(run, op, a, b, node):
     if isinstance(op, ast.FloorDiv) and a.ty is TInt and b.ty is TInt:
         run.implicit_raise(b.t != 0, "ZeroDivisionError", node)
         # python floor division == z3 div for positive divisor; general case:
-        return Val(TInt, z3.If(b.t > 0, a.t / b.t, -((-a.t) / (-b.t)) if False else (a.t / b.t)))
+        # Python floors; z3's div floors only for a positive divisor, and (-a) div (-b) is the same quotient
+        return Val(TInt, z3.If(b.t > 0, a.t / b.t, (-a.t) / (-b.t)))
     if isinstance(op, ast.Mod):
         if a.ty is TStr:
             return Val(TStr, z3.FreshConst(S, "fmt"))
         if a.ty is TInt and b.ty is TInt:
             run.implicit_raise(b.t != 0, "ZeroDivisionError", node)
-            return Val(TInt, a.t % b.t)
+            # Python: a % b == a - b * floor(a / b)  (sign of the divisor)
+            return Val(TInt, z3.If(b.t > 0, a.t % b.t, a.t - b.t * ((-a.t) / (-b.t))))
     if isinstance(op, ast.BitAnd) and a.ty is TInt and b.ty is TInt:
         # integer bit mask: an uninterpreted function of both operands (flags are only ever tested against constants)
         return Val(TInt, uf("int_bitand", I, I, I)(a.t, b.t))
